@@ -81,4 +81,22 @@ def htmlTextFree : List Events.Frame → List Ev → Bool
      | none => true)
 
 end Flat
+
+namespace Outline
+
+/-- the level of a heading that starts at the top level (nothing open) -/
+def topHeading : Reader.Ev → List Events.Frame → List Nat
+  | .startHeading _ _ l, [] => [l]
+  | _, _ => []
+
+/-- heading levels the parser reports at the top level of a note (not inside quotes or list items), in order -/
+def levelsEv : List Events.Frame → List Reader.Ev → List Nat
+  | _, [] => []
+  | fs, ev :: evs =>
+    topHeading ev fs ++
+    (match Events.step fs ev with
+     | some fs' => levelsEv fs' evs
+     | none => [])
+
+end Outline
 end Iwe
